@@ -4,6 +4,7 @@
 -/
 import MotoModel.Proofs.DiskSector
 import MotoModel.Props.C07
+import MotoModel.Proofs.DiskPreserve
 namespace Moto.C06
 open Moto Moto.Disk
 
@@ -13,10 +14,8 @@ theorem write_touches_one_sector (sd : Side) (t s t' s' : Nat) (v : Bytes) (h : 
 
 /-- data sectors of block `b` are the flat sectors `8 b .. 8 b + 7`: blocks never overlap, and the
     table / catalog (flat 321..335) lie in blocks 40 and 41 -/
-theorem block_sectors_flat (b s : Nat) (_hs : s < 8) : idx (blockTrack b) (blockFirstSector b + s) = 8 * b + s := by
-  unfold idx blockTrack blockFirstSector
-  have : Gen.Disk.sectorsPerTrack = 16 := rfl
-  rw [this]; omega
+theorem block_sectors_flat (b s : Nat) (hs : s < 8) : idx (blockTrack b) (blockFirstSector b + s) = 8 * b + s :=
+  Disk.block_sectors_flat b s hs
 
 theorem table_and_catalog_in_blocks_40_41 (s : Nat) (h1 : 1 ≤ s) (h16 : s < 16) :
     idx batTrack s = 8 * 40 + s ∧ (s < 8 ∨ idx batTrack s = 8 * 41 + (s - 8)) := by
@@ -81,5 +80,28 @@ theorem add_nothing_identity_fd (w : Tape.World) (verbose : Bool) (archive : Str
     simp only [List.cons.injEq, Prod.mk.injEq, and_true, true_and] at h
     rw [← h, add_nothing_keeps_sides w verbose img st hp]
     exact C11.load_save_fd raw img 4 (by omega) hlen hl
+
+end Moto.C06
+
+namespace Moto.C06
+open Moto Moto.Disk
+
+/-- **C06 (previously stored files are intact)**: after a successful `writeFile`, every entry whose
+    chain shares no block with the newly allocated one (and does not sit on track 20) reads back
+    exactly the bytes it read before — whoever wrote the image, however fragmented the chains. -/
+theorem old_files_intact (sd sd' : Side) (bat : List Nat) (content : Bytes) (name ext : Str) (kind flag : Nat)
+    (hw : C11.WFSide sd) (hb : getBat sd = .ok bat)
+    (hres : writeFile sd content name ext kind flag = .ok sd') (e : Entry)
+    (hdisj : ∀ b ∈ e.blocks, b ∉ chosen bat (reqBlocks content.length) ∧ b ≠ 40 ∧ b ≠ 41)
+    (hlast : ∀ last, e.blocks.getLast? = some last → bat.getD last 0 ≤ 200) :
+    readFile sd' (linkChain bat (chosen bat (reqBlocks content.length)) (lastSectorsOf content.length)) e = readFile sd bat e :=
+  writeFile_preserves sd sd' bat content name ext kind flag hw hb hres e hdisj hlast
+
+/-- blocks in use are never chosen for the new file: the disjointness hypothesis above holds for
+    every chain made of non-free blocks -/
+theorem used_blocks_not_chosen (bat : List Nat) (k : Nat) (b : Nat) (h : isFree (bat.getD b 0) = false) : b ∉ chosen bat k := by
+  intro hm
+  have := (chosen_free bat k b hm).2
+  rw [h] at this; cases this
 
 end Moto.C06
